@@ -33,7 +33,7 @@ def op_token(op):
 
 
 def to_line(c):
-    return "C10 pirun %s %s %s" % (c["core"], c["mode"], " ".join(op_token(o) for o in c["ops"]))
+    return "%s pirun %s %s %s" % (c.get("prop", "C10"), c["core"], c["mode"], " ".join(op_token(o) for o in c["ops"]))
 
 
 def mk_alpha(a):
@@ -339,3 +339,46 @@ def shrink(c):
     ops = c["ops"]
     for i in range(len(ops) - 1, 0, -1):
         yield dict(c, ops=ops[:i] + ops[i + 1:])
+
+
+# ------------------------------------------------------------------ C03: labels of forecasts AND interval tables
+def label_oracle(c, out):
+    """C03 on the interval entry points: whatever was asked for besides the forecast (return_pred_int, alpha) and whatever
+    was asked before, a forecast is labelled cutoff + step for a relative horizon and by the time points themselves for an
+    absolute one -- from the cutoff the forecaster stands at NOW -- and every interval table carries exactly those labels."""
+    fails = []
+    toks = out.split(" ")[:-1]
+    stored, sure = None, True
+    site = "probeint" if c["core"].startswith("probe") else "plainint"
+    for i, (op, tok) in enumerate(zip(c["ops"], toks)):
+        k = op[0]
+        body, st = tok[:tok.rindex("{")], tok[tok.rindex("{") + 1:-1].split(",", 3)
+        cut = None if st[1] == "none" else int(st[1])
+        given = op[2] if k in ("fit", "upsi", "ups") else op[1] if k in ("predi", "pred") else None
+        if k in ("fit", "predi", "pred", "upsi", "ups"):
+            if given is not None:
+                if body.startswith("E:") and body not in ("E:notimpl",):
+                    sure = False if k != "fit" else sure      # the call may have failed before or after storing the horizon
+                    if k == "fit":
+                        stored, sure = None, False
+                else:
+                    stored, sure = given, True if k == "fit" else sure
+            elif k == "fit":
+                stored, sure = None, True
+        if k in ("up", "upi") and not body.startswith("E:"):
+            pass        # a window forecaster keeps its own horizon through update_predict
+        if k in ("predi", "pred", "upsi", "ups") and body.startswith("S[") and sure and cut is not None:
+            fh = given if given is not None else stored
+            if fh is None:
+                continue
+            want = sorted(cut + h for h in fh[1]) if fh[0] == "r" else sorted(fh[1])
+            pts, tabs, _ = _parse(body)
+            got = [l for l, _ in pts]
+            if got != want:
+                fails.append((site + ":forecast-labels", "op %d %s at cutoff %d: forecast labelled %r, requested horizon means %r" % (i, op_token(op), cut, got, want)))
+                break
+            if tabs is not None and any([r[0] for r in t] != want for t in tabs):
+                fails.append((site + ":interval-labels", "op %d %s at cutoff %d: interval tables labelled %r, requested horizon means %r" % (
+                    i, op_token(op), cut, [[r[0] for r in t] for t in tabs], want)))
+                break
+    return fails
